@@ -68,6 +68,9 @@ func checkC09(c *Ctx) {
 	c.Rule("C09-R12", "every operand handed to the parameter interpreter is an int, a string or a bool (anything else is read as 0 and the emitted sequence names another colour or cell)")
 	c.Expect("C09-R12", 1)
 	checkTParmOperandTypes(c, p, "C09-R12")
+	c.Rule("C09-R14", "cells are encoded with the character set's encoder: wherever a screen's encoder and decoder are assigned, the encoder comes from NewEncoder and the decoder from NewDecoder (both have the same static type; the decoder used as encoder sends UTF-8 of Latin-1 code points, C1 bytes included, to an 8-bit terminal)")
+	c.Expect("C09-R14", 2)
+	checkTransformersNotSwapped(c, p, "C09-R14")
 	c09Encapsulation(c, p)
 	c09Sanitiser(c, p)
 	c08Width(c, p, "C09-R3")
